@@ -43,6 +43,7 @@ type netMsg struct {
 
 type appendWork struct {
 	msg     *pb.Message
+	orig    []*pb.Entry // deep copy of msg.Entries taken when the message was handed out
 	metas   []msgMeta // parallel to msg.Responses (zero meta for the MsgStorageAppendResp)
 	written bool      // entries already written (crash point between entries and hard state)
 }
@@ -72,6 +73,8 @@ type node struct {
 
 	// Ready/Advance mode
 	rd           *raft.Ready
+	rdEnts       []*pb.Entry // deep copies taken at hand-out time
+	rdCommitted  []*pb.Entry
 	rdMetas      []msgMeta
 	persistedEnt bool
 	persistedHS  bool
@@ -81,6 +84,7 @@ type node struct {
 	// async mode
 	appQ    []*appendWork
 	aplQ    []*pb.Message
+	aplOrig [][]*pb.Entry
 	selfApp []selfMsg
 	selfApl []selfMsg
 
@@ -386,7 +390,7 @@ func (w *World) start(n *node, applied uint64, first bool) {
 	n.inc++
 	n.everStarted = true
 	n.rd, n.rdMetas = nil, nil
-	n.appQ, n.aplQ, n.selfApp, n.selfApl = nil, nil, nil, nil
+	n.appQ, n.aplQ, n.selfApp, n.selfApl, n.aplOrig = nil, nil, nil, nil, nil
 	n.snapReports = nil
 	n.handedCS = nil
 	n.outNow, n.outAfter = nil, nil
@@ -533,7 +537,7 @@ func (w *World) crashNode(n *node, keep int, partial bool) {
 	w.logf("crash %d (appQ=%d rd=%v)", n.id, len(n.appQ), n.rd != nil)
 	n.rn, n.ms = nil, nil
 	n.rd, n.rdMetas = nil, nil
-	n.appQ, n.aplQ, n.selfApp, n.selfApl = nil, nil, nil, nil
+	n.appQ, n.aplQ, n.selfApp, n.selfApl, n.aplOrig = nil, nil, nil, nil, nil
 	n.snapReports = nil
 	n.outNow, n.outAfter = nil, nil
 	w.Stats["crashes"]++
